@@ -1026,7 +1026,12 @@ func (e *SpecEnv) call(x *Expr) SVal {
 				e.fail("dyn(x, Type)")
 			}
 			if _, ok := t.IsType.Underlying().(*types.Pointer); !ok {
-				e.fail("dyn supports pointer types only")
+				// a non-pointer dynamic value is boxed by an injective function (see makeInterface): unbox it; the
+				// result is only meaningful when istype(x, T) holds
+				srt := c.sortOf(t.IsType)
+				c.declFun("box:"+typeKey(t.IsType), []string{srt}, "Int")
+				ub := c.declFun("unbox:"+typeKey(t.IsType), []string{"Int"}, srt)
+				return goVal(app(ub, "(i.ref "+a.T+")"), t.IsType)
 			}
 			return goVal(ite(fmt.Sprintf("(= (i.tid %s) %d)", a.T, c.typeID(t.IsType)), "(i.ref "+a.T+")", "0"), t.IsType)
 		case "contains", "hasprefix", "hassuffix":
